@@ -114,16 +114,19 @@ Qed.
 
 (* ------------------------------------------------------------------ MoveToPositionAux *)
 
+Lemma last_of_firstn_S : forall (L : list positive) k, k < length L -> last_of (firstn (S k) L) = nth_error L k.
+Proof.
+  induction L as [|x L IH]; intros k Hk; [cbn in Hk; lia|].
+  destruct k as [|k]; [reflexivity|]. cbn [length] in Hk.
+  change (firstn (S (S k)) (x :: L)) with (x :: firstn (S k) L). cbn [nth_error].
+  destruct L as [|y L']; [cbn in Hk; lia|].
+  change (firstn (S k) (y :: L')) with (y :: firstn k L'). rewrite last_of_cons_cons.
+  change (y :: firstn k L') with (firstn (S k) (y :: L')). apply IH. lia.
+Qed.
+
 Lemma last_of_firstn : forall (L : list positive) k, 1 <= k <= length L -> last_of (firstn k L) = nth_error L (k - 1).
 Proof.
-  intros L k [H1 H2]. destruct k as [|k]; [lia|]. replace (S k - 1) with k by lia.
-  revert L H2. induction k as [|k IH]; intros L H2.
-  - destruct L as [|x L]; [cbn in H2; lia|]. reflexivity.
-  - destruct L as [|x L]; [cbn in H2; lia|]. cbn [length] in H2.
-    change (firstn (S (S k)) (x :: L)) with (x :: firstn (S k) L).
-    destruct L as [|y L']; [cbn in H2; lia|].
-    change (firstn (S k) (y :: L')) with (y :: firstn k L'). rewrite last_of_cons_cons.
-    change (y :: firstn k L') with (firstn (S k) (y :: L')). rewrite IH by (cbn [length]; lia). reflexivity.
+  intros L k [H1 H2]. destruct k as [|k]; [lia|]. replace (S k - 1) with k by lia. apply last_of_firstn_S. lia.
 Qed.
 
 Lemma nth_error_mid : forall (m1 m2 : list positive) e, nth_error (m1 ++ e :: m2) (length m1) = Some e.
@@ -150,8 +153,8 @@ Proof.
   - apply Nat.eqb_eq in E0. subst idx. unfold i. cbn [Nat.min firstn skipn app]. apply move_front_exact. exact T.
   - apply Nat.eqb_neq in E0. destruct (cnt h <=? idx) eqn:E1.
     + apply Nat.leb_le in E1. assert (Ei : i = length L) by (unfold i; lia).
-      rewrite Ei, firstn_all, skipn_all. unfold L. rewrite <- app_assoc. apply move_back_exact. exact T.
-    + apply Nat.leb_gt in E1. assert (Ei : i = idx) by (unfold i; lia). rewrite Ei.
+      clearbody i. subst i. rewrite firstn_all, skipn_all. unfold L. rewrite <- app_assoc. apply move_back_exact. exact T.
+    + apply Nat.leb_gt in E1. assert (Ei : i = idx) by (unfold i; lia). clearbody i. subst i.
       rewrite (entry_at_linked h _ idx (ti_linked _ _ T) (ti_cnt _ _ T)).
       destruct (opt_pos_eqb (nth_error (l1 ++ e :: l2) idx) (Some e)) eqn:Eq.
       * apply opt_pos_eqb_true in Eq. pose proof (nth_error_nodup_pos l1 l2 e idx Hnd Eq) as Ep. subst idx.
